@@ -265,6 +265,30 @@ def plant_twins(rng, n):
     return k
 
 
+def handles_then_repoint(rng, n):
+    """A history of legal edits: instance pins re-connected through by-value handles (OuterPin.from_instance_and_inner_pin),
+    then the instance re-pointed to another leaf cell of the same shape."""
+    k = 0
+    insts = [c for d in defs_of(n) for c in d.children if c.reference is not None]
+    rng.shuffle(insts)
+    for i in insts[:6]:
+        cands = [d for d in defs_of(n) if d is not i.reference and shape(d) == shape(i.reference) and d is not i.parent and
+                 not d.children and d.library is not None and
+                 (d.library is i.parent.library or d.library is i.reference.library)]      # (no new library dependency)
+        wired = [op for op in i.pins if op.wire is not None]
+        if not cands or not wired:
+            continue
+        for op in wired:
+            if rng.random() < 0.7:
+                w = op.wire
+                h = sdn.OuterPin.from_instance_and_inner_pin(i, op.inner_pin)
+                w.disconnect_pin(h)
+                w.connect_pin(sdn.OuterPin.from_instance_and_inner_pin(i, op.inner_pin))
+        i.reference = rng.choice(cands)
+        k += 1
+    return k
+
+
 def plant_case_twins(rng, n):
     """Siblings whose names differ only in letter case (legal: names are case-sensitive), the lower-case one first."""
     k = 0
@@ -567,6 +591,8 @@ def run_case(ctx, i, rng):
         ctx.count("netlists_with_planted_same_named_twins")
     if i % 4 in (1, 2):
         ctx.count("siblings_differing_only_in_case", plant_case_twins(rng, n))
+    if i % 3 == 0:
+        ctx.count("instances_rewired_through_handles_then_repointed", handles_then_repoint(rng, n))
     if i % 8 == 5:
         ctx.count("netlists_with_a_port_wider_than_256", plant_wide(rng, n))
     if i % 3 == 2:
@@ -598,13 +624,18 @@ def compare_phase(ctx, i, rng, n, edif_roundtrip):
     me = sys.modules[__name__]
     c0 = canon.canon_netlist(n)
     # positive side
+    ex = run_compare(n, n)
+    ctx.count("positive_compares")
+    if ex is not None:
+        ctx.violation("rejects-faithful-copy:itself", "compare(itself) raised %s: %s | %s" % (type(ex).__name__, str(ex)[:120], st))
+        return
     b, _ = rebuild(n)
     dd = canon.first_diff(c0, canon.canon_netlist(b))
     if dd:
         ctx.count("rebuild_not_faithful")
         ctx.note_inconclusive("harness rebuild is not faithful: %s" % dd)
         return
-    for x, y, tag in ((n, b, "rebuild"), (b, n, "rebuild-swapped"), (n, n, "itself")):
+    for x, y, tag in ((n, b, "rebuild"), (b, n, "rebuild-swapped")):
         ex = run_compare(x, y)
         ctx.count("positive_compares")
         if ex is not None:
